@@ -97,6 +97,9 @@ def gen_spec(rng, flavour=None):
             node_params["stop_status"] = rng.choice(["pass", "error", "fail"])
         if rng.random() < 0.3:
             node_params["rerun_status"] = rng.choice(["fail", "fail error", "fail error pass unknown"])
+    if flavour in ("removable", "handover") and rng.random() < 0.3:
+        # a removal request spelled per object type for the whole run: it marks the states of that type only
+        node_params[rng.choice(["unset_mode_vms", "unset_mode_images"])] = rng.choice(["fi", "fa"])
     if rng.random() < 0.05:
         node_params["dry_run"] = "yes"
     if rng.random() < 0.1:
@@ -180,7 +183,8 @@ def one_case(rng, flavour=None, max_sections=2500, fixed=None, timed=False):
     run.go(rng, outcome_policy(rng, spec), wake_bias=rng.choice([0.2, 0.5, 0.9]),
            fixed=[tuple(s) for s in fixed[2]] if fixed else None, timed=timed)
     run_timed = timed
-    events_t = clist([clist([trav.event_term(x, e) for e in evs]) for evs in run.events])
+    # (a section cut off by the watchdog is compared on its first events only: the model cannot follow it anyway)
+    events_t = clist([clist([trav.event_term(x, e) for e in (evs if len(evs) < 5000 else evs[:100] + evs[-1:])]) for evs in run.events])
     term = cpair(graph_t, store_t, trav.schedule_term(run.sections), events_t)
     return {"spec": spec, "store": {str(k): sorted(v) for k, v in store.items()}, "run": run, "term": term, "x": x, "timed": timed}
 
